@@ -1535,6 +1535,24 @@ def check_preproc(case, rec):
     if norm == "Manly":
         f = f0 * 0.5 + tr[None, :]
     det = f - tr[None, :]
+    if norm in ("BoxCox", "BoxCoxShift", "YeoJohnson", "Modulus", "Manly") and case["pass_class"] and not case["oor"] and bool(np.all(np.isfinite(det))) \
+            and (norm not in ("BoxCox", "BoxCoxShift") or float(np.min(det)) > 0.0) and np.unique(det).size >= 4:
+        # a normalizer given as a class stands for its documented default parameters in every call - also after another call fitted one
+        Cls_ = getattr(gs.normalizer, norm)
+        # (reference: a default instance built here; a comparison "before vs after" alone would not reproduce once process-wide state is spoilt)
+        r_b = _ve(tags, pos, _field_arg(det), case["edges"], normalizer=Cls_(), **kw)
+        try:
+            with common.quiet():
+                gs.vario_estimate(_copy_pos(pos), _copy_field(_field_arg(det)), None if case["edges"] is None else np.array(case["edges"], dtype=float),
+                                  normalizer=Cls_, fit_normalizer=True, **kw)
+        except Exception:  # noqa: BLE001 - the fitted run itself is not what is looked at here
+            pass
+        r_a = _ve(tags, pos, _field_arg(det), case["edges"], normalizer=Cls_, **kw)
+        rec.label("class_form_after_fitted_run")
+        require(bool(np.array_equal(r_b[1], r_a[1], equal_nan=True)) and bool(np.array_equal(r_b[2], r_a[2])),
+                f"vario_estimate(normalizer={norm} given as class), after an earlier call with fit_normalizer=True, differs from the result for a default instance {norm}() "
+                f"(max difference {float(np.nanmax(np.abs(r_b[1] - r_a[1]))):.3g})",
+                dict(tags, rel="class_form_default", kind="shared_default_normalizer"))
     kwp = dict(kw)
     if t_arg is not None:
         kwp["trend"] = t_arg
